@@ -10,6 +10,8 @@ CLAIMS = {
          "registers are outside C18.", "DESIGN.md §6 C18"),
  "C11": ("Theorems in coq/props/C11.v (no axioms) about a transcription of value_eq/value_cmp/scalar_eq/scalar_cmp: symmetry and reflexivity (NaN excepted) of ==, != as negation, duality of < and >, <=/>= as (< or ==) on ordered values, equal values never strictly ordered, and independence of every answer from the storage/iteration order of object entries (via canonicity of the key-sorted entry list) — for all values of any depth, for every recursion budget. Also proves that the pre-repair hash-order zip violated this (Pinned.order_dependent_refuted). Correspondence: all ordered pairs of a 76-value pool (each operand rebuilt 16 times so hash orders vary) plus random nested pairs, through Value, ValueViewCmp, ValueCow and to_value, against the extracted model and against the laws themselves.",
          "floats are SpecFloat data (SFcompare), `as f64` is binary_normalize; int/float equality for |x|<=2^53 is checked by the correspondence and the law check, not yet a theorem; the State::Truthy marker is outside the quantifier (proved asymmetric).", "DESIGN.md §6 C11"),
+ "C15": ("Theorems in coq/props/C15.v (no axioms, no real numbers) about a transcription of stdlib/filters/math.rs: plus/minus/times/abs/at_least/at_most on integers equal the mathematical result when it fits in 64 bits and otherwise continue as the IEEE operation on the converted operands (never a wrapped integer); truncated division law with remainder bound, the single non-fitting quotient, division by zero as an error for integer/float/string zeros; the float path is SpecFloat's IEEE binary64 operation; numeric strings parse back to the integer they print (decimal print/parse round trip proved); floor/ceil/round of every finite double m*2^e are the neighbouring integers in the documented direction (ties away from zero) as integer-scaled inequalities. Correspondence: all pairs of the 64-bit boundary set as integers/strings/floats for each of the eleven filters, all k/8 pairs, random 64-bit operands and doubles, type-confused operands, on the debug and the release build, against the extracted model and an independent big-integer/IEEE reference.",
+         "f64::from_str is an oracle (table observed from the implementation each run); % on doubles is an exact fmod written in the model; round with decimal places is multiply/round/divide in doubles with 10.0.powi(n) modelled as square-and-multiply, covered by the correspondence only.", "DESIGN.md §6 C15"),
 }
 def main():
     props = [json.loads(l) for l in open(os.path.join(V, "properties.jsonl"))]
